@@ -19,6 +19,7 @@ import SharkVerif.Lemmas.Stats
 import SharkVerif.Lemmas.Linear
 import SharkVerif.Lemmas.LDA
 import SharkVerif.Lemmas.ZCA
+import SharkVerif.Lemmas.TrainersKernel
 import Mathlib.Tactic.NormNum
 import Mathlib.Tactic.IntervalCases
 namespace SharkVerif.C15
@@ -218,9 +219,9 @@ theorem whitening_output (factor : Nat → (Nat → Nat → Rat) → Nat × (Nat
 `s_k²·D_k = 1` (so every `D_k ≠ 0`), the matrix `√t · Q·diag(s)·Qᵀ` the trainer installs maps
 the training data to mean 0 and covariance `t·I_d`.  (For a singular covariance the pinned
 source divides by zero — F-C15-2 — and the repaired one whitens only the range; that case is
-covered by the run-time oracle, not by this theorem: hence `_partial`; `zca_partial_witness`
-shows that the hypothesis `s_k²·D_k = 1` cannot be met as soon as one eigenvalue is 0.) -/
-theorem zca_output_partial (Q : Nat → Nat → Rat) (D s : Nat → Rat) (sqrtT t : Rat)
+covered by `zca_output` below, which has no such hypothesis; this is its regular case,
+where the projector is the identity.) -/
+theorem zca_output_regular (Q : Nat → Nat → Rat) (D s : Nat → Rat) (sqrtT t : Rat)
     (bs : List (List Vec)) (d : Nat) (hne : bs.flatten ≠ []) (hs : sqrtT * sqrtT = t)
     (hQ : ∀ k, k < d → ∀ l, l < d → rsum d (fun i => Q i k * Q i l) = if k = l then 1 else 0)
     (hcov : ∀ i, i < d → ∀ j, j < d → covariance bs i j = rsum d (fun k => Q i k * D k * Q j k))
@@ -231,9 +232,91 @@ theorem zca_output_partial (Q : Nat → Nat → Rat) (D s : Nat → Rat) (sqrtT 
   whitening_output (fun _ _ => (d, zcaFactor Q s d)) sqrtT t bs d hne hs
     (fun a ha b hb => zca_factor_spec d Q D s (covariance bs) hQ hcov hsD a b ha hb)
 
-/-- witness for the `_partial`: with a zero eigenvalue no scaling `s` satisfies `s²·D = 1`
-(data with a constant feature, which `NormalizeComponentsZCA::train` accepts) -/
-theorem zca_partial_witness (s : Rat) : s * s * 0 ≠ 1 := by norm_num
+/-- **Whitening, whatever the factor**: the transformed training data have mean 0 and covariance
+`t · C·Cov·Cᵀ` (no specification of the factor assumed). -/
+theorem whitening_output_general (factor : Nat → (Nat → Nat → Rat) → Nat × (Nat → Nat → Rat)) (sqrtT t : Rat)
+    (bs : List (List Vec)) (d : Nat) (hne : bs.flatten ≠ []) (hs : sqrtT * sqrtT = t) :
+    let m := whitening factor sqrtT bs d
+    let out := m.applyData d bs
+    ∀ a, a < m.rows → ∀ b, b < m.rows →
+      mean out a = 0 ∧ covariance out a b = t * rsum d (fun i => rsum d (fun j =>
+        (factor d (covariance bs)).2 a i * covariance bs i j * (factor d (covariance bs)).2 b j)) := by
+  intro m out a ha b hb
+  have hTa : ∀ x ∈ bs.flatten, (m.apply d x).at a = rsum d (fun j => m.W a j * x.at j) + m.b a :=
+    fun x _ => linearModel_apply_at m d a x ha
+  have hTb : ∀ x ∈ bs.flatten, (m.apply d x).at b = rsum d (fun j => m.W b j * x.at j) + m.b b :=
+    fun x _ => linearModel_apply_at m d b x hb
+  constructor
+  · show mean (bs.map fun B => B.map (m.apply d)) a = 0
+    rw [mean_linear bs _ d a _ _ hne hTa]
+    show rsum d (fun j => (factor d (covariance bs)).2 a j * sqrtT * mean bs j)
+      + -(rsum d fun j => (factor d (covariance bs)).2 a j * sqrtT * mean bs j) = 0
+    ring
+  · show covariance (bs.map fun B => B.map (m.apply d)) a b = _
+    rw [covariance_linear bs _ d a b _ _ _ _ hne hTa hTb]
+    have : ∀ i, i < d → rsum d (fun j => m.W a i * covariance bs i j * m.W b j)
+        = t * rsum d (fun j => (factor d (covariance bs)).2 a i * covariance bs i j * (factor d (covariance bs)).2 b j) := by
+      intro i _
+      rw [← rsum_mul_left]
+      apply rsum_congr; intro j _
+      show (factor d (covariance bs)).2 a i * sqrtT * covariance bs i j * ((factor d (covariance bs)).2 b j * sqrtT) = _
+      rw [← hs]; ring
+    rw [rsum_congr this, rsum_mul_left]
+
+/-- **`NormalizeComponentsZCA`, every covariance (singular included)**: given the eigen-solver specification
+(`Q` with orthonormal columns, `Cov = Q·diag(D)·Qᵀ`) and scales with `s_k²·D_k = e_k ∈ {0,1}` — `e_k = 1` on the
+directions the trainer rescales (`s_k = 1/√D_k`), `e_k = 0` on those it clears (`s_k = 0` for `D_k ≤ 1e-15·D_0`,
+see `zca_scale_spec`) — the matrix `√t · Q·diag(s)·Qᵀ` maps the training data to mean 0 and covariance
+`t · Q·diag(e)·Qᵀ`: `t` times the ORTHOGONAL PROJECTOR onto the kept eigen-directions (symmetric, idempotent),
+which is `t·I` when nothing is cleared (`zca_output_regular`).  This replaces the former `zca_output_partial`:
+no hypothesis excludes an input the trainer accepts. -/
+theorem zca_output (Q : Nat → Nat → Rat) (D s e : Nat → Rat) (sqrtT t : Rat)
+    (bs : List (List Vec)) (d : Nat) (hne : bs.flatten ≠ []) (hs : sqrtT * sqrtT = t)
+    (hQ : ∀ k, k < d → ∀ l, l < d → rsum d (fun i => Q i k * Q i l) = if k = l then 1 else 0)
+    (hcov : ∀ i, i < d → ∀ j, j < d → covariance bs i j = rsum d (fun k => Q i k * D k * Q j k))
+    (hsD : ∀ k, k < d → s k * s k * D k = e k) (he : ∀ k, k < d → e k * e k = e k) :
+    let m := whitening (fun _ _ => (d, zcaFactor Q s d)) sqrtT bs d
+    let out := m.applyData d bs
+    let P : Nat → Nat → Rat := fun a b => rsum d (fun k => Q a k * e k * Q b k)
+    (∀ a, a < d → ∀ b, b < d → mean out a = 0 ∧ covariance out a b = t * P a b)
+    ∧ (∀ a, a < d → ∀ b, b < d → P a b = P b a ∧ rsum d (fun j => P a j * P j b) = P a b) := by
+  intro m out P
+  constructor
+  · intro a ha b hb
+    have h := whitening_output_general (fun _ _ => (d, zcaFactor Q s d)) sqrtT t bs d hne hs a ha b hb
+    refine ⟨h.1, ?_⟩
+    rw [h.2]
+    show t * rsum d (fun i => rsum d (fun j => zcaFactor Q s d a i * covariance bs i j * zcaFactor Q s d b j)) = _
+    rw [zca_factor_spec_general d Q D s e (covariance bs) hQ hcov hsD a b ha hb]
+  · intro a ha b hb
+    exact ⟨rsum_congr (fun k _ => by ring), zca_projector_spec d Q e hQ he a b ha hb⟩
+
+/-- the scales `NormalizeComponentsZCA::train` computes, `s_k = 1/√D_k` if `D_k > 1e-15·D_0` and 0 otherwise,
+satisfy the hypothesis of `zca_output` with `e_k = [D_k > 1e-15·D_0]`, given `sqrt` at the kept eigenvalues -/
+theorem zca_scale_spec (sqrt : Rat → Rat) (D : Nat → Rat) (k : Nat)
+    (hsq : D k > (1 / 1000000000000000) * D 0 → sqrt (D k) * sqrt (D k) = D k ∧ sqrt (D k) ≠ 0) :
+    zcaScale sqrt D k * zcaScale sqrt D k * D k = (if D k > (1 / 1000000000000000) * D 0 then 1 else 0)
+    ∧ (if D k > (1 / 1000000000000000) * D 0 then (1 : Rat) else 0) * (if D k > (1 / 1000000000000000) * D 0 then 1 else 0)
+        = (if D k > (1 / 1000000000000000) * D 0 then 1 else 0) := by
+  unfold zcaScale
+  by_cases h : D k > (1 / 1000000000000000) * D 0
+  · obtain ⟨h1, h2⟩ := hsq h
+    simp only [h, if_true]
+    refine ⟨?_, by norm_num⟩
+    have : 1 / sqrt (D k) * (1 / sqrt (D k)) * (sqrt (D k) * sqrt (D k)) = 1 := by field_simp
+    rw [h1] at this
+    exact this
+  · rw [if_neg h, if_neg h]; norm_num
+
+/-- non-vacuity of `zca_output` with a cleared direction: the points (−1,5), (1,5) — second feature constant —,
+`Q = I`, `D = (1, 0)`, `s = e = (1, 0)` -/
+example : (∀ i, i < 2 → ∀ j, j < 2 → covariance [[[-1, 5], [1, 5]]] i j
+      = rsum 2 (fun k => (if i = k then (1 : Rat) else 0) * (if k = 0 then 1 else 0) * (if j = k then 1 else 0)))
+    ∧ ∀ k, k < 2 → (if k = 0 then (1 : Rat) else 0) * (if k = 0 then 1 else 0) * (if k = 0 then 1 else 0) = (if k = 0 then 1 else 0) := by
+  constructor
+  · intro i hi j hj
+    interval_cases i <;> interval_cases j <;> norm_num [rsum, covariance, mean, bsum, lsum, count, Vec.at]
+  · intro k hk; interval_cases k <;> norm_num
 
 /-- the general fact behind it: covariance of a linear image of the data is `W·Cov·W'ᵀ` -/
 theorem linear_image_covariance (m : LinearModel) (bs : List (List Vec)) (d a b : Nat) (ha : a < m.rows)
@@ -741,7 +824,7 @@ example : ([[[-1], [1]]] : List (List Vec)).flatten ≠ [] ∧ (2 : Rat) * 2 = 4
   interval_cases a; interval_cases b
   norm_num [rsum, covariance, mean, bsum, lsum, count, Vec.at]
 
-/-- non-vacuity of `zca_output_partial` / `pca_encoded_covariance`: the same data, `Q = (1)`, `D = (1)`, `s = (1)` -/
+/-- non-vacuity of `zca_output_regular` / `pca_encoded_covariance`: the same data, `Q = (1)`, `D = (1)`, `s = (1)` -/
 example : (∀ k, k < 1 → ∀ l, l < 1 → rsum 1 (fun i => (fun _ _ : Nat => (1 : Rat)) i k * (fun _ _ : Nat => (1 : Rat)) i l)
       = if k = l then 1 else 0)
     ∧ (∀ i, i < 1 → ∀ j, j < 1 → covariance [[[-1], [1]]] i j
@@ -758,5 +841,251 @@ example : ∀ p ∈ ([[([0], 0), ([2], 1)]] : CData).flatten, p.2 < 2 := by
   intro p hp
   simp at hp
   rcases hp with rfl | rfl <;> simp
+
+/-! ## NormalizeKernelUnitVariance (a normalisation trainer: unit variance in feature space) -/
+
+/-- **`NormalizeKernelUnitVariance`** (every symmetric kernel, dataset, batch partition): the batch-pair loop of the
+trainer computes the variance of the data in feature space, `1/N Σ k(x,x) − 1/N² Σ k(x,y)`, and with the factor it
+installs in the `ScaledKernel` that variance is exactly 1 — unless it is 0 (all points coincide in feature space),
+where no factor exists (the pinned source then installs `1/0`, finding F-C15-10). -/
+theorem nkuv_unit_variance (k : Kernel) (hk : ∀ x y, k x y = k y x) (bs : List (List Vec)) :
+    nkuvVariance k bs = featureVariance k bs.flatten
+    ∧ (nkuvVariance k bs ≠ 0 → featureVariance (fun x y => nkuvFactor k bs * k x y) bs.flatten = 1) := by
+  refine ⟨nkuvVariance_eq k hk bs, fun hv => ?_⟩
+  rw [featureVariance_scale, ← nkuvVariance_eq k hk bs]
+  unfold nkuvFactor
+  field_simp
+
+/-- the factor does not depend on the batch partition (symmetric kernel) -/
+theorem nkuv_batch_independent (k : Kernel) (hk : ∀ x y, k x y = k y x) (bs bs' : List (List Vec))
+    (h : bs.flatten = bs'.flatten) : nkuvFactor k bs = nkuvFactor k bs' := by
+  unfold nkuvFactor
+  rw [nkuvVariance_eq k hk, nkuvVariance_eq k hk, h]
+
+/-- witness that the symmetry matters: for a non-symmetric "kernel" the loop (which visits the blocks below the diagonal
+only and doubles them) does not sum the matrix -/
+theorem nkuv_needs_symmetry :
+    ∃ (k : Kernel) (bs : List (List Vec)), nkuvMean k bs ≠ lsum bs.flatten (fun x => lsum bs.flatten fun y => k x y) := by
+  refine ⟨fun x y => x.at 0 * (y.at 0 + 1), [[[1]], [[2]]], ?_⟩
+  norm_num [nkuvMean, nkuvMeanAux, blockSum, lsum, Vec.at]
+
+/-- non-vacuity: the linear kernel is symmetric and the points 0, 2 have feature variance 1 ≠ 0 -/
+example : (∀ x y, linearKernel 1 x y = linearKernel 1 y x) ∧ nkuvVariance (linearKernel 1) [[[0]], [[2]]] ≠ 0 := by
+  constructor
+  · intro x y; simp [linearKernel, rsum]; ring
+  · norm_num [nkuvVariance, nkuvTrace, nkuvMean, nkuvMeanAux, blockSum, blockTrace, lsum, linearKernel, rsum, count, Vec.at]
+
+/-! ## KernelMeanClassifier (weighted) -/
+
+/-- **`KernelMeanClassifier` is the nearest-class-mean rule in feature space** (every kernel, weighted dataset, batch
+partition, number of classes, input `x`): the difference of the decision values of two classes is `−½` the difference of
+the squared feature-space distances of `x` to the weighted class means `μ_c = Σ_{i∈c} (w_i/W_c) φ(x_i)`; so the arg-max
+class is the class with the nearest mean.  The binary model's single decision value is `decision₁ − decision₀`. -/
+theorem kmean_nearest_mean (k : Kernel) (bs : WCData) (c c' : Nat) (x : Vec) :
+    kmDecision k bs c x - kmDecision k bs c' x = -(1 / 2) * (kmDist2 k bs c x - kmDist2 k bs c' x)
+    ∧ kmDecisionBinary k bs x = kmDecision k bs 1 x - kmDecision k bs 0 x := by
+  constructor
+  · unfold kmDecision kmDist2
+    rw [kmOffset_eq, kmOffset_eq]
+    ring
+  · unfold kmDecisionBinary kmDecision
+    rw [bsum_eq_flatten, bsum_eq_flatten, bsum_eq_flatten,
+      lsum_congr (g := fun p => kmCoef bs 1 p * k p.1 x - kmCoef bs 0 p * k p.1 x) (fun p _ => by ring), lsum_sub]
+    ring
+
+theorem bsum_scaleWeights (s : Rat) (bs : WCData) (f : Vec × Nat × Rat → Rat) :
+    bsum (scaleWeights s bs) f = bsum bs (fun p => f (p.1, p.2.1, s * p.2.2)) := by
+  unfold scaleWeights
+  rw [bsum_eq_flatten, bsum_eq_flatten, flatten_map_map, lsum_map]
+
+/-- **weight-scale invariance of `KernelMeanClassifier`**: multiplying all example weights by `s ≠ 0` changes neither a
+coefficient nor an offset, hence no decision value -/
+theorem kmean_weights_scale_invariant (k : Kernel) (bs : WCData) (s : Rat) (hs : s ≠ 0) (c : Nat) (x : Vec) :
+    kmOffset k (scaleWeights s bs) c = kmOffset k bs c
+    ∧ kmDecision k (scaleWeights s bs) c x = kmDecision k bs c x := by
+  have hoff : kmOffset k (scaleWeights s bs) c = kmOffset k bs c := by
+    rw [kmOffset_eq, kmOffset_eq, bsum_scaleWeights]
+    simp only [bsum_scaleWeights, kmCoef_scale bs s hs]
+  refine ⟨hoff, ?_⟩
+  unfold kmDecision
+  rw [hoff, bsum_scaleWeights]
+  simp only [kmCoef_scale bs s hs]
+
+/-- the classifier does not depend on the batch partition -/
+theorem kmean_batch_independent (k : Kernel) (bs bs' : WCData) (h : bs.flatten = bs'.flatten) (c : Nat) (x : Vec) :
+    kmDecision k bs c x = kmDecision k bs' c x := by
+  have hw : classWeight bs c = classWeight bs' c := by simp only [classWeight, bsum_eq_flatten, h]
+  have hco : ∀ p, kmCoef bs c p = kmCoef bs' c p := fun p => by simp only [kmCoef, hw]
+  unfold kmDecision
+  rw [kmOffset_eq, kmOffset_eq]
+  simp only [bsum_eq_flatten, h, hco]
+
+/-! ## RegularizationNetworkTrainer (Gaussian process / kernel ridge regression) -/
+
+/-- **Stationarity of the regularised risk** (every symmetric kernel, dataset, noise variance, label column): if the
+coefficients solve `(K + σ²I)·α = l − mean(l)` then, with the offset `mean(l)` the trainer installs, every partial
+derivative of `½ Σ_i (f(x_i) − l_i)² + ½ σ² αᵀKα`, `f = Σ_j α_j k(x_j,·) + b`, vanishes. -/
+theorem regnet_stationary (k : Kernel) (hk : ∀ x y, k x y = k y x) (bs : List (List (Vec × Vec))) (noise : Rat) (c : Nat)
+    (alpha : Nat → Rat)
+    (hsys : ∀ i, i < count bs → rsum (count bs) (fun j => regnetM k bs noise i j * alpha j) = regnetRhs bs i c) :
+    ∀ a, a < count bs → regnetGradient k bs noise c alpha (regnetMean bs c) a = 0 := by
+  intro a _
+  have hres : ∀ i, i < count bs → regnetPredict k bs alpha (regnetMean bs c) i - (elemAt bs i).2.at c = -noise * alpha i := by
+    intro i hi
+    have h := hsys i hi
+    rw [regnetM_apply k bs noise alpha i hi] at h
+    unfold regnetRhs at h
+    unfold regnetPredict
+    rw [rsum_congr (g := fun j => k (elemAt bs i).1 (elemAt bs j).1 * alpha j) (fun j _ => by rw [hk (elemAt bs j).1]; ring)]
+    linarith
+  unfold regnetGradient
+  rw [rsum_congr (g := fun i => -noise * (k (elemAt bs a).1 (elemAt bs i).1 * alpha i)) (fun i hi => by rw [hres i hi]; ring),
+    rsum_mul_left]
+  ring
+
+/-- **End to end through the C02 Cholesky solver.**  In the branch `alpha = inv(M, symm_pos_def()) % V` the coefficients
+are those of the C02 model of `cholesky_decomposition::solve` (`potrf` + two triangular solves).  By C02's
+`solve_spd_correct` they solve the system whenever `potrf` succeeds (returns 0) — no specification of the solver is
+assumed, only that of the square root at the pivots — hence the trained expansion is a stationary point of the
+regularised risk in every label column. -/
+theorem regnet_train_cholesky_stationary (r : Rat → Rat) (k : Kernel) (hk : ∀ x y, k x y = k y x)
+    (bs : List (List (Vec × Vec))) (noise : Rat) (c : Nat)
+    (hr : C02.SqrtSpec r (count bs) (regnetM k bs noise))
+    (h0 : LinSolve.potrfInfo false r (count bs) (regnetM k bs noise) = 0) :
+    (∀ i, i < count bs →
+        rsum (count bs) (fun j => regnetM k bs noise i j * regnetAlphaChol r k bs noise j c) = regnetRhs bs i c)
+    ∧ ∀ a, a < count bs → regnetGradient k bs noise c (fun j => regnetAlphaChol r k bs noise j c) (regnetMean bs c) a = 0 := by
+  have hsym : ∀ i j, i < count bs → j < count bs → regnetM k bs noise i j = regnetM k bs noise j i := by
+    intro i j _ _
+    unfold regnetM
+    rw [hk (elemAt bs i).1]
+    by_cases h : i = j
+    · simp [h]
+    · have : ¬ j = i := fun e => h e.symm
+      simp [h, this]
+  have hsys := solveSpd_spec r (count bs) (regnetM k bs noise) (fun i => regnetRhs bs i c) hr h0 hsym
+  exact ⟨hsys, regnet_stationary k hk bs noise c _ hsys⟩
+
+/-- the system (hence, for any solver that is a function of it, the trained expansion) does not depend on the batch partition -/
+theorem regnet_batch_independent (r : Rat → Rat) (k : Kernel) (bs bs' : List (List (Vec × Vec))) (h : bs.flatten = bs'.flatten)
+    (noise : Rat) :
+    regnetM k bs noise = regnetM k bs' noise ∧ regnetRhs bs = regnetRhs bs' ∧ regnetMean bs = regnetMean bs'
+      ∧ regnetAlphaChol r k bs noise = regnetAlphaChol r k bs' noise := by
+  have he : ∀ a, elemAt bs a = elemAt bs' a := fun a => by simp only [elemAt, h]
+  have hn : count bs = count bs' := by rw [count_eq_flatten, count_eq_flatten, h]
+  have hm : regnetMean bs = regnetMean bs' := by funext c; simp only [regnetMean, bsum_eq_flatten, h, hn]
+  have hM : regnetM k bs noise = regnetM k bs' noise := by funext a b; simp only [regnetM, he]
+  have hR : regnetRhs bs = regnetRhs bs' := by funext a c; simp only [regnetRhs, he, hm]
+  refine ⟨hM, hR, hm, ?_⟩
+  funext a c
+  simp only [regnetAlphaChol, hM, hR, hn]
+
+/-! ## FisherLDA: the scatter solve through C02, and what a repair has to compute (F-C15-7) -/
+
+/-- **`FisherLDA::meanAndScatter` through the C02 Cholesky solver**: the matrix handed to the eigen-solver satisfies
+`Sw · scatter = Sb` (every dataset / class count / dimension for which `potrf` succeeds on `Sw`). -/
+theorem fisher_scatter_spec (r : Rat → Rat) (bs : CData) (classes d : Nat)
+    (hr : C02.SqrtSpec r d (withinScatterMoments bs classes))
+    (h0 : LinSolve.potrfInfo false r d (withinScatterMoments bs classes) = 0) :
+    ∀ i, i < d → ∀ j, rsum d (fun l => withinScatterMoments bs classes i l * fisherScatter r bs classes d l j)
+      = betweenScatter bs classes i j := by
+  intro i hi j
+  exact solveSpd_spec r d (withinScatterMoments bs classes) (fun a => betweenScatter bs classes a j) hr h0
+    (fun a b _ _ => withinScatterMoments_symm bs classes a b) i hi
+
+/-- **F-C15-7, witness**: a solution `M` of `Sw·M = Sb` with symmetric `Sw`, `Sb` need not be symmetric
+(`Sw = diag(1,2)`, `Sb = [[1,1],[1,1]]`: `M = [[1,1],[½,½]]`), yet `FisherLDA::train` hands it to the SYMMETRIC
+eigen-solver, which reads one triangle only. -/
+theorem fisher_scatter_not_symmetric_witness :
+    ∃ Sw Sb M : Nat → Nat → Rat, (∀ i j, Sw i j = Sw j i) ∧ (∀ i j, Sb i j = Sb j i)
+      ∧ (∀ i, i < 2 → ∀ j, j < 2 → rsum 2 (fun l => Sw i l * M l j) = Sb i j) ∧ M 0 1 ≠ M 1 0 := by
+  refine ⟨fun i j => if i = j then (if i = 0 then 1 else 2) else 0, fun _ _ => 1,
+    fun i _ => if i = 0 then 1 else 1 / 2, ?_, fun _ _ => rfl, ?_, by norm_num⟩
+  · intro i j; by_cases h : i = j
+    · subst h; rfl
+    · have : ¬ j = i := fun e => h e.symm
+      simp [h, this]
+  · intro i hi j _
+    interval_cases i <;> norm_num [rsum]
+
+/-- **What the repair computes** (symmetrisation through the Cholesky factor of `Sw`, findings_proposed/C15.md): with
+`Sw = L·Lᵀ`, if `v` is an eigenvector with eigenvalue `λ` of the SYMMETRIC matrix `L⁻¹·Sb·L⁻ᵀ` (stated without inverses:
+`v = Lᵀw`, `L·u = Sb·w`, `u = λ·v`) then the back-transformed direction `w = L⁻ᵀv` satisfies the generalised
+eigen-equation `Sb·w = λ·Sw·w`, i.e. it is a stationary point of the Fisher criterion `wᵀSb w / wᵀSw w`. -/
+theorem fisher_symmetrised_direction (d : Nat) (Sw Sb L : Nat → Nat → Rat) (w v u : Nat → Rat) (lam : Rat)
+    (hSw : ∀ i, i < d → ∀ j, j < d → Sw i j = rsum d (fun l => L i l * L j l))
+    (hv : ∀ l, l < d → v l = rsum d (fun j => L j l * w j))
+    (hu : ∀ i, i < d → rsum d (fun l => L i l * u l) = rsum d (fun j => Sb i j * w j))
+    (heig : ∀ l, l < d → u l = lam * v l) :
+    ∀ i, i < d → rsum d (fun j => Sb i j * w j) = lam * rsum d (fun j => Sw i j * w j) := by
+  intro i hi
+  have h1 : rsum d (fun j => Sw i j * w j) = rsum d (fun l => L i l * v l) := by
+    rw [rsum_congr (g := fun j => rsum d (fun l => L i l * L j l * w j)) (fun j hj => by rw [hSw i hi j hj, rsum_mul_right]),
+      rsum_rsum_comm]
+    apply rsum_congr; intro l hl
+    rw [hv l hl, ← rsum_mul_left]
+    apply rsum_congr; intro j _; ring
+  rw [← hu i hi, h1, ← rsum_mul_left]
+  apply rsum_congr; intro l hl
+  rw [heig l hl]; ring
+
+/-- non-vacuity of `fisher_symmetrised_direction`: `d = 1`, `Sw = 4 = 2·2`, `Sb = 8`, `w = 1`, `v = 2`, `u = 4`, `λ = 2` -/
+example : (∀ i, i < 1 → ∀ j, j < 1 → (fun _ _ : Nat => (4 : Rat)) i j = rsum 1 (fun l => (fun _ _ : Nat => (2 : Rat)) i l * (fun _ _ : Nat => (2 : Rat)) j l))
+    ∧ (∀ l, l < 1 → (fun _ : Nat => (2 : Rat)) l = rsum 1 (fun j => (fun _ _ : Nat => (2 : Rat)) j l * (fun _ : Nat => (1 : Rat)) j))
+    ∧ (∀ i, i < 1 → rsum 1 (fun l => (fun _ _ : Nat => (2 : Rat)) i l * (fun _ : Nat => (4 : Rat)) l) = rsum 1 (fun j => (fun _ _ : Nat => (8 : Rat)) i j * (fun _ : Nat => (1 : Rat)) j))
+    ∧ ∀ l, l < 1 → (fun _ : Nat => (4 : Rat)) l = 2 * (fun _ : Nat => (2 : Rat)) l := by
+  refine ⟨?_, ?_, ?_, ?_⟩ <;> intros <;> norm_num [rsum]
+
+/-! ## LDA::train assembled: statistics + solve + discriminant -/
+
+/-- specification of `solve(C, M, symm_semi_pos_def(), right)`: it returns a solution of `Z·C = M` whenever one exists -/
+def RightSolverSpec (solve : RightSolver) : Prop :=
+  ∀ d classes C M, (∃ Z : Nat → Nat → Rat, ∀ c, c < classes → ∀ j, j < d → rsum d (fun k => Z c k * C k j) = M c j) →
+    ∀ c, c < classes → ∀ j, j < d → rsum d (fun k => solve d classes C M c k * C k j) = M c j
+
+theorem ldaCov_symm (bs : CData) (classes : Nat) (reg : Rat) (i j : Nat) : ldaCov bs classes reg i j = ldaCov bs classes reg j i := by
+  unfold ldaCov
+  dsimp only
+  have h1 : bsum bs (fun p => p.1.at i * p.1.at j) = bsum bs (fun p => p.1.at j * p.1.at i) := by
+    rw [bsum_eq_flatten, bsum_eq_flatten]; exact lsum_congr (fun p _ => by ring)
+  have h2 : ∀ c, c < classes → classCount bs c / (((count bs : Nat) : Rat) - (classes : Nat)) * (ldaMean bs c i * ldaMean bs c j)
+      = classCount bs c / (((count bs : Nat) : Rat) - (classes : Nat)) * (ldaMean bs c j * ldaMean bs c i) := fun c _ => by ring
+  rw [h1, rsum_congr h2]
+  by_cases h : i = j
+  · subst h; rfl
+  · have : ¬ j = i := fun e => h e.symm
+    simp [h, this]
+
+/-- **`LDA::train` end to end** (every dataset, batch partition, number of classes, dimension, regularisation): the
+discriminant the trainer installs — class means and pooled covariance accumulated over the batches
+(`lda_pooled_covariance`), rows `z_c` from the solver, bias `−½ m_c·z_c + log π_c` — ranks two classes exactly like the
+Gaussian log-posteriors with the estimated means, the estimated pooled covariance and the empirical priors, given only
+the solver's specification (it returns a solution whenever one exists).  `_partial`: the hypothesis that `Z·C = means`
+is solvable excludes singular pooled covariances whose range misses a class mean (`lda_partial_witness`); it always
+holds for a regular covariance, in particular whenever `reg > 0`. -/
+theorem lda_train_bayes_rule_partial (solve : RightSolver) (hs : RightSolverSpec solve) (log : Rat → Rat) (bs : CData)
+    (classes d : Nat) (reg : Rat)
+    (hsolv : ∃ Z : Nat → Nat → Rat, ∀ c, c < classes → ∀ j, j < d →
+      rsum d (fun k => Z c k * ldaCov bs classes reg k j) = ldaMean bs c j)
+    (x y : Nat → Rat) (hy : ∀ j, j < d → rsum d (fun k => ldaCov bs classes reg j k * y k) = x j)
+    (c c' : Nat) (hc : c < classes) (hc' : c' < classes) :
+    let z := solve d classes (ldaCov bs classes reg) (ldaMean bs)
+    (ldaTrainDiscriminant solve log bs classes d reg c' x ≤ ldaTrainDiscriminant solve log bs classes d reg c x
+      ↔ -(1 / 2) * quadForm d (ldaCov bs classes reg) (fun j => y j - z c' j) (fun j => y j - z c' j) + log (ldaPrior bs c')
+        ≤ -(1 / 2) * quadForm d (ldaCov bs classes reg) (fun j => y j - z c j) (fun j => y j - z c j) + log (ldaPrior bs c)) := by
+  intro z
+  have hz := hs d classes (ldaCov bs classes reg) (ldaMean bs) hsolv
+  exact lda_bayes_rule_partial d (ldaCov bs classes reg) z (ldaMean bs) (fun c => log (ldaPrior bs c)) x y
+    (fun j _ k _ => ldaCov_symm bs classes reg j k) hy c c' (hz c hc) (hz c' hc')
+
+/-- non-vacuity of `RightSolverSpec`: a solver meeting the specification exists -/
+example : ∃ solve : RightSolver, RightSolverSpec solve := by
+  classical
+  refine ⟨fun d classes C M =>
+    if h : ∃ Z : Nat → Nat → Rat, ∀ c, c < classes → ∀ j, j < d → rsum d (fun k => Z c k * C k j) = M c j
+    then Classical.choose h else fun _ _ => 0, ?_⟩
+  intro d classes C M h
+  simp only [h, dite_true]
+  exact Classical.choose_spec h
 
 end SharkVerif.C15
